@@ -193,6 +193,19 @@ def uses_of(rec, local):
     return out
 
 
+def bool_is_branched(rec, local, depth=0):
+    """the boolean held by `local` (or a copy / negation of it) is the operand of a conditional branch"""
+    if depth > 4:
+        return False
+    for kind, x, bi in uses_of(rec, local):
+        if kind == 'switch':
+            return True
+        if kind == 'stmt' and not x[1][1] and x[2][0] in ('use', 'un', 'unop', 'not') and x[1][0] != local:
+            if bool_is_branched(rec, x[1][0], depth + 1):
+                return True
+    return False
+
+
 def fate(rec, local, depth=0, seen=None):
     seen = seen or set()
     if local in seen or depth > 6:
@@ -228,6 +241,9 @@ def fate(rec, local, depth=0, seen=None):
                 fates.add('propagated')
             elif ('core::result::Result' in name or 'core::option::Option' in name or 'core::task::poll::Poll' in name) and name.endswith(PANICKERS):
                 fates.add('panic')
+            elif ('core::result::Result' in name) and name.endswith(('::is_ok', '::is_err')) and bool_is_branched(rec, d):
+                # `let ok = x.is_ok(); if ok { .. } else { .. }` inspects the outcome just like matching on it
+                fates.add('matched')
             elif ('core::result::Result' in name) and name.endswith(SWALLOWERS):
                 fates.add('swallow:' + name.rsplit('::', 1)[-1])
             elif name.endswith(ADAPTERS) or name.endswith('Deref>::deref') or 'core::clone::Clone' in name:
